@@ -194,6 +194,14 @@ def run_shard(spec, rec):
             rec.violation("predicate-disagrees", {"predicate": "Quantity.check", "a": str(a),
                                                   "dimension": ds, "model": same, "got": (oc, v)},
                           predicate="Quantity.check", workload=tag)
+        # two checked parameters, passed by keyword in the opposite order of the signature
+        f2 = ureg.check(ds, "[]")(lambda x, y: 42)
+        oc2, v2 = outcome(lambda: f2(y=Q(one, ""), x=qa), pint)
+        rec.count("predicate_evals")
+        if (oc2 == "ok") is not same or (oc2 != "ok" and oc2 != "dimerr"):
+            rec.violation("predicate-disagrees", {"predicate": "ureg.check (keywords out of order)", "a": str(a),
+                                                  "dimension_x": ds, "model": same, "got": (oc2, v2)},
+                          predicate="ureg.check", workload=tag)
         f = ureg.check(ds)(lambda x: 42)
         oc, v = outcome(lambda: f(qa), pint)
         rec.count("predicate_evals")
